@@ -217,6 +217,7 @@ func uploadBundle(ctx context.Context, bundle *Bundle, bundleEntriesPerFile uint
 	if err != nil {
 		return err
 	}
+	files = uniqueKeys(files)
 
 	if len(files) == 0 {
 		bundle.l.Warn("Uploading bundle with 0 files")
@@ -342,6 +343,21 @@ func uploadBundle(ctx context.Context, bundle *Bundle, bundleEntriesPerFile uint
 		zap.String("BundleID", bundle.BundleID),
 	)
 	return nil
+}
+
+// uniqueKeys drops repeated keys from a list of files to upload, keeping the first occurrence:
+// a file named twice must yield one bundle entry, not two.
+func uniqueKeys(files []string) []string {
+	seen := make(map[string]struct{}, len(files))
+	unique := make([]string, 0, len(files))
+	for _, file := range files {
+		if _, dupe := seen[file]; dupe {
+			continue
+		}
+		seen[file] = struct{}{}
+		unique = append(unique, file)
+	}
+	return unique
 }
 
 func validateBundle(bundle *Bundle) bool {
